@@ -45,7 +45,10 @@ def run_case(case, rng):
         sp = G.random_spec(rng, "proper", n_max=n_max, gamma=1.0, reward_sign="neg")
         sp.family = "properneg"
     else:
-        sp = G.random_spec(rng, fam, n_max=n_max)
+        # large reward magnitudes (values in the 1e4..1e5 range) on some cases: absolute tolerances and finite
+        # stand-ins for -inf only show at scale
+        sp = G.random_spec(rng, fam, n_max=n_max, trap_entry=(fam == "sspneg"),
+                           reward_scale=rng.choice([1.0, 1.0, 1.0, 1.0, 1000.0, 64.0]))
     rep = rng.choice(Bd.REPRS)
     if not rep.endswith("explicit"):
         G.restrict_to_closure(sp, rng)
@@ -112,7 +115,16 @@ def run_case(case, rng):
         # bounds
         nS = len(S_)
         if is_pi:
-            Bs = np.full(nS, 1e-9 * sol_.scale)
+            # policy iteration stops when its tie-sharing policy is stable; ties are np.isclose(Q, max Q)
+            # (rtol 1e-5, atol 1e-8), so the evaluated policy may mix actions up to delta below the best one:
+            # V* - V^pi <= delta/(1-gamma)  (gamma<1)   resp.  delta * E[steps of pi]  (gamma=1)
+            qmax = float(np.abs(np.where(np.isfinite(Q), Q, 0.0)).max()) if Q.size else 0.0
+            delta_pi = 1e-8 + 1e-5 * qmax
+            if gamma < 1:
+                Bs = np.full(nS, delta_pi / (1 - gamma) + 1e-9 * sol_.scale)
+            else:
+                steps, _, _ = Rf.expected_steps(arr_, _norm_rows(PI, arr_.avail), pinned_, return_parts=True)
+                Bs = delta_pi * (1.0 + steps) + 1e-9 * sol_.scale
         elif gamma < 1:
             Bs = np.full(nS, eps / (1 - gamma) + 1e-9 * sol_.scale)
         else:
